@@ -50,10 +50,13 @@ func vNewKey(kind, name string) *vKey {
 			panic(err)
 		}
 		k.priv, k.pub, k.alg = s, p, jwa.EdDSA
-	case "p256", "p384":
+	case "p256", "p384", "p521":
 		c, a := elliptic.P256(), jwa.ES256
 		if kind == "p384" {
 			c, a = elliptic.P384(), jwa.ES384
+		}
+		if kind == "p521" {
+			c, a = elliptic.P521(), jwa.ES512
 		}
 		s, err := ecdsa.GenerateKey(c, crand.Reader)
 		if err != nil {
